@@ -680,12 +680,25 @@ func TestPromiseConcurrent(t *testing.T) {
 			for i, n := 0, rapid.IntRange(0, 2).Draw(t, "npre"); i < n; i++ {
 				c.Pre = append(c.Pre, pop{Kind: rapid.SampledFrom(kinds).Draw(t, "pre-kind"), V: 10 + i})
 			}
+			if len(c.Pre) > 0 && rapid.Bool().Draw(t, "pre-settles") {
+				c.Pre[0].Kind = "fulfill" // the promise is already settled when the concurrent calls start
+			}
 			np := rapid.IntRange(2, 4).Draw(t, "npar")
 			for i := 0; i < np; i++ {
 				c.Par = append(c.Par, pop{Kind: rapid.SampledFrom(kinds).Draw(t, "par-kind"), V: 20 + i})
 			}
 			for i, n := 0, rapid.IntRange(0, 3).Draw(t, "nholds"); i < n; i++ {
-				c.Hold = append(c.Hold, rapid.IntRange(-1, np-1).Draw(t, "hold-target"))
+				h := rapid.IntRange(-1, np-1).Draw(t, "hold-target")
+				if h >= 0 && c.Par[h].Kind == "wait" && rapid.Bool().Draw(t, "prefer-setter") {
+					// prefer holding the waiter until a setter has finished
+					for k, o := range c.Par {
+						if o.Kind != "wait" {
+							h = k
+							break
+						}
+					}
+				}
+				c.Hold = append(c.Hold, h)
 			}
 			return c
 		},
@@ -719,5 +732,5 @@ func TestPromiseConcurrent(t *testing.T) {
 			}
 			return l
 		},
-		MinFrac: map[string]float64{"waiter-held-while-second-setter-runs": 0.1}})
+		MinFrac: map[string]float64{"waiter-held-while-second-setter-runs": 0.08}})
 }
